@@ -42,12 +42,31 @@ func verifDaysIn(y, m int) int {
 	return d
 }
 
+// verifSplitYM: when set, year and month are case-split by the engine (Choose) instead of being left to the
+// solver; day, time of day and amounts stay symbolic. Used by the C09 calendar harnesses (DESIGN P6: the
+// fully symbolic calendar is beyond all three solvers at this size).
+var verifSplitYM bool
+
+func verifYear(label string) int {
+	if verifSplitYM {
+		return verifCalYearLo() + verifrt.Choose(label, 2024-verifCalYearLo()+1)
+	}
+	return verifrt.NondetIntRange(label, verifYearLo(), 2024)
+}
+
+func verifMonth(label string) int {
+	if verifSplitYM {
+		return 1 + verifrt.Choose(label, 12)
+	}
+	return verifrt.NondetIntRange(label, 1, 12)
+}
+
 // verifDate draws a Date in the window 2019..2024 with an arbitrary precision; fields below the precision are at their minimum.
 func verifDate(label string) (Date, verifCivil) {
 	li := verifrt.Choose(label+".layout", 3)
-	c := verifCivil{y: verifrt.NondetIntRange(label+".y", 2019, 2024), mo: 1, d: 1, rank: li}
+	c := verifCivil{y: verifYear(label + ".y"), mo: 1, d: 1, rank: li}
 	if li >= 1 {
-		c.mo = verifrt.NondetIntRange(label+".mo", 1, 12)
+		c.mo = verifMonth(label + ".mo")
 	}
 	if li >= 2 {
 		c.d = verifrt.NondetIntRange(label+".d", 1, 31)
@@ -80,9 +99,9 @@ func verifDateTime(label string, withOffset bool) (DateTime, verifCivil) {
 // verifDateTimeL: as verifDateTime with the layout index fixed.
 func verifDateTimeL(label string, withOffset bool, li int) (DateTime, verifCivil) {
 	rank := verifDTRank(li)
-	c := verifCivil{y: verifrt.NondetIntRange(label+".y", 2019, 2024), mo: 1, d: 1, rank: rank}
+	c := verifCivil{y: verifYear(label + ".y"), mo: 1, d: 1, rank: rank}
 	if rank >= 1 {
-		c.mo = verifrt.NondetIntRange(label+".mo", 1, 12)
+		c.mo = verifMonth(label + ".mo")
 	}
 	if rank >= 2 {
 		c.d = verifrt.NondetIntRange(label+".d", 1, 31)
@@ -159,3 +178,9 @@ func verifCompare(kind string, a, b verifCivil) (cmp int, defined bool) {
 func decimalCoefficient(d Decimal) int64 {
 	return decimalOf(d).Coefficient().Int64()
 }
+
+// verifYearLo: the calendar window is 2023..2024 in the quick tier and 2019..2024 in the thorough tier.
+func verifYearLo() int { return 2024 + 1 - verifrt.Bound(2, 6) }
+
+// verifCalYearLo: window of the case-split calendar harnesses (C09-B): 2024 only in the quick tier (a leap year), 2019..2024 thorough.
+func verifCalYearLo() int { return 2024 + 1 - verifrt.Bound(1, 6) }
